@@ -239,7 +239,12 @@ def run(ctx):
         files.append(of)
     t1 = time.time()
     split["sim"] = round(t1 - t0 - split["model"], 1)
-    run_parallel(cmds, 1500)
+    # ---- systematic: every schedule with at most one preemption of small two-client programs around start/stop/restart
+    for j in range(8):
+        of = ctx.path("explore%d.json" % j)
+        cmds.append(([PY, REC, "explore", str(j), "8", "24" if quick else "400", str(ctx.seed * 8 + j), of], pyenv()))
+        files.append(of)
+    run_parallel(cmds, 2400)
     split["record"] = round(time.time() - t1, 1)
     t1 = time.time()
     alltr = []
@@ -310,6 +315,8 @@ def run(ctx):
             sig = "%s%s" % (name, (":" + qualifier(name, tr, l)) if qualifier(name, tr, l) else "")
             replay = {"kind": tr["kind"], "trace_seed": tr.get("seed"), "cfg": tr["cfg"], "formula": name, "at_event": l,
                       "summary": summarise(tr, l + 3)}
+            if tr["kind"] == "planned":
+                replay.update({"progs": tr["progs"], "plan": tr["plan"], "policy": tr["policy"]})
             if tr["kind"] in ("random", "extended"):
                 replay["ext"] = tr.get("ext", [0, 0])
                 replay["params"] = {"maxmax": tr["params"][0], "nt": tr["params"][1], "nc": tr["params"][2]}
